@@ -11,6 +11,8 @@ CONSTANTS
   UseOpts = TRUE
   UseBlocks = TRUE
   Axes <- MC_AxisK
+  FirstKinds <- MC_KindsPlain
+  TwinFormatSeq <- MC_TwinFormats
   MaxObs = 2
   MaxRagged = 0
   MaxRaggedInt = 0
